@@ -19,6 +19,13 @@ class _PositioningTracker:
         # next positioning is actually a Tab Offset
         self._last_column = None
 
+    def reset(self):
+        """Forget the tracked position (a new caption is being composed)"""
+        self._positions = [None]
+        self._break_required = False
+        self._repositioning_required = False
+        self._last_column = None
+
     def update_positioning(self, positioning):
         """Being notified of a position change, updates the internal state,
         to as to be able to tell if it was a trivial change (a simple line
